@@ -1,14 +1,214 @@
 package c07
 
-import "pgregory.net/rapid"
+import (
+	"strings"
+	"sync"
+	"time"
 
-// ordering control: filled in once the verif hooks exist.
-type orderCtl struct{}
+	"pgregory.net/rapid"
+)
 
-func genOrder(_ *rapid.T, _ Case) [][2]string { return nil }
+// Yield points by goroutine role (names as instrumented in /repo under the verif tag).
+var points = map[string][]string{
+	"creader": {"creader.top", "creader.pre_read", "creader.post_read", "creader.pre_errsend", "creader.post_enqueue", "creader.exit"},
+	"cclose":  {"cclose.enter", "cclose.post_done", "cclose.graceful", "cclose.forced"},
+	"cop":     {"cop.read_enter", "cop.post_errcheck"},
+	"nreader": {"nreader.top", "nreader.post_read", "nreader.pre_errsend"},
+	"nclose":  {"nclose.enter", "nclose.post_done"},
+	"nrpc":    {"nrpc.pre_select"},
+}
 
-func installOrder(_ [][2]string) *orderCtl { return &orderCtl{} }
-func uninstallOrder()                     {}
-func (o *orderCtl) arm()                  {}
-func (o *orderCtl) releaseAll()           {}
-func (o *orderCtl) outcome() (int, int)   { return 0, 0 }
+func role(p string) string { return p[:strings.IndexByte(p, '.')] }
+
+func rolesFor(c Case) []string {
+	r := []string{"creader", "cclose"}
+	if c.Driver == "netconf" {
+		r = append(r, "nreader", "nclose", "cop") // the NETCONF read loop is the channel's operation-side reader
+		if c.State == "op-inflight" {
+			r = append(r, "nrpc")
+		}
+	} else if c.State == "op-inflight" {
+		r = append(r, "cop")
+	}
+
+	return r
+}
+
+func pointsFor(c Case) []string {
+	var out []string
+	for _, r := range rolesFor(c) {
+		out = append(out, points[r]...)
+	}
+
+	return out
+}
+
+func genOrder(t *rapid.T, c Case) [][2]string {
+	if !hooksAvailable {
+		return nil
+	}
+
+	n := rapid.SampledFrom([]int{0, 1, 1, 2, 3}).Draw(t, "nOrder")
+	pts := pointsFor(c)
+
+	var out [][2]string
+
+	for i := 0; i < n; i++ {
+		a := rapid.SampledFrom(pts).Draw(t, "orderA")
+		b := rapid.SampledFrom(pts).Draw(t, "orderB")
+
+		if role(a) == role(b) {
+			continue
+		}
+
+		out = append(out, [2]string{a, b})
+	}
+
+	return out
+}
+
+type constraint struct {
+	a, b       string
+	fired      bool
+	feasible   bool
+	infeasible bool
+}
+
+type orderCtl struct {
+	mu       sync.Mutex
+	armed    bool
+	passed   map[string]bool
+	waiters  map[string][]chan struct{}
+	cons     []*constraint
+	release  chan struct{}
+	released bool
+	patience time.Duration
+	// parked is the time goroutines of each role spent parked by the harness.
+	parked map[string]time.Duration
+}
+
+func installOrder(order [][2]string, patience time.Duration) *orderCtl {
+	o := &orderCtl{
+		passed: map[string]bool{}, waiters: map[string][]chan struct{}{}, release: make(chan struct{}),
+		patience: patience, parked: map[string]time.Duration{},
+	}
+	for _, p := range order {
+		o.cons = append(o.cons, &constraint{a: p[0], b: p[1]})
+	}
+
+	if len(o.cons) > 0 {
+		setHooks(o.hook)
+	}
+
+	return o
+}
+
+func uninstallOrder() { setHooks(nil) }
+
+func (o *orderCtl) arm() {
+	o.mu.Lock()
+	o.armed = true
+	o.mu.Unlock()
+}
+
+func (o *orderCtl) releaseAll() {
+	o.mu.Lock()
+	if !o.released {
+		o.released = true
+		close(o.release)
+	}
+	o.mu.Unlock()
+}
+
+func (o *orderCtl) hook(point string) {
+	o.mu.Lock()
+
+	if !o.armed || o.released {
+		o.mu.Unlock()
+
+		return
+	}
+
+	var (
+		waitCh chan struct{}
+		con    *constraint
+	)
+
+	for _, c := range o.cons {
+		if c.b != point || c.fired {
+			continue
+		}
+
+		c.fired = true
+
+		if o.passed[c.a] {
+			c.feasible = true
+
+			continue
+		}
+
+		if waitCh == nil {
+			waitCh = make(chan struct{})
+			o.waiters[c.a] = append(o.waiters[c.a], waitCh)
+			con = c
+		}
+	}
+
+	o.mu.Unlock()
+
+	if waitCh != nil {
+		t0 := time.Now()
+
+		ok := false
+
+		select {
+		case <-waitCh:
+			ok = true
+		case <-time.After(o.patience):
+		case <-o.release:
+		}
+
+		o.mu.Lock()
+		con.feasible = ok
+		con.infeasible = !ok
+		o.parked[role(point)] += time.Since(t0)
+		o.mu.Unlock()
+	}
+
+	o.mu.Lock()
+	o.passed[point] = true
+
+	for _, ch := range o.waiters[point] {
+		close(ch)
+	}
+
+	delete(o.waiters, point)
+	o.mu.Unlock()
+}
+
+func (o *orderCtl) outcome() (feasible, infeasible int) {
+	o.mu.Lock()
+	defer o.mu.Unlock()
+
+	for _, c := range o.cons {
+		if c.feasible {
+			feasible++
+		} else {
+			infeasible++
+		}
+	}
+
+	return feasible, infeasible
+}
+
+func (o *orderCtl) parkedBy(roles ...string) time.Duration {
+	o.mu.Lock()
+	defer o.mu.Unlock()
+
+	var d time.Duration
+	for _, r := range roles {
+		d += o.parked[r]
+	}
+
+	return d
+}
